@@ -15,7 +15,7 @@ import subprocess
 import sys
 import time
 
-MUT = os.environ.get("MUT_DIR", "/tmp/mut5")
+MUT = os.environ.get("MUT_DIR", "/tmp/mut6")
 VERIF = "/verif"
 
 
